@@ -1478,3 +1478,22 @@ Theorem body_kinds_spec : forall g, In g body_kinds <-> In g stated_kinds.
 Proof.
   intros g. split; apply incl_bool; vm_compute; reflexivity.
 Qed.
+
+(* T12.1 in the form of DESIGN: some environment extends the reported bindings *)
+Lemma blookup_in_nodup b n w : NoDup (bnames b) -> In (n, w) b -> blookup n b = Some w.
+Proof.
+  induction b as [|[m x] b IH]; simpl; intros Hd Hin; [contradiction|].
+  inversion Hd as [|? ? Hn Hd']; subst. destruct Hin as [Heq|Hin].
+  - injection Heq as -> ->. now rewrite Nat.eqb_refl.
+  - destruct (Nat.eqb n m) eqn:E; [|auto].
+    apply Nat.eqb_eq in E. subst m. exfalso. apply Hn. apply in_map_iff. exists (n, w). auto.
+Qed.
+
+Corollary match_sound_ex t v r :
+  wf_tmpl t = true -> match_tmpl t v = Some r ->
+  exists rho, (forall n w, In (n, w) (snd r) -> rho n = Some w) /\ Matches rho t v.
+Proof.
+  intros Hwf Hm. exists (env_of (snd r)). split.
+  - intros n w Hin. apply blookup_in_nodup; auto. apply (result_names _ _ _ Hm).
+  - now apply match_sound.
+Qed.
